@@ -222,3 +222,99 @@ CONTRACTS['efficiency_bin'] = Contract(
               "forall(lambda x: implies(inr(x, n0), e[x, x] == 0)))"),
              ('argument-untouched', "unchanged('G')")])
 CONTRACTS['efficiency_bin'].callees = {'distance_inv': _callee_distance_inv}
+
+
+# ---- breadth (BFS from one source) and breadthdist (C03) -----------------------------------------------------------------------------
+# Classical queue invariant (CLRS 22.2).  lev(v) = 0 for the source, distance[v] otherwise.  The routine records the length of the
+# shortest cycle through the source in distance[source]; with a self-loop AT the source that assignment happens while the source's own
+# neighbours are still being processed and their distances come out one too large (observation, DESIGN 12.3): required here: no
+# self-loop at the source.  d(v) = sdist(CIJ, source, v).
+def _setup_bfs(eng, st):
+    n = z3.Int('n0c')
+    st.pc.append(n >= 1)
+    st.ghost['n0'] = n
+    st.env['CIJ'] = alloc(st, 2, z3.Const('C0', A2R), (n, n), REAL)
+    st.env['source'] = z3.Int('source')
+
+
+_LEV = "(0 if %s == source else distance[%s])"
+_D = "sdist(CIJ, source, %s)"
+_NODE = "forall(lambda v: implies(inr(v, n0), %s))"
+_BFS_STATE = [
+    ('SHAPE', "And(n == n0, inr(source, n0), white == 0, gray == 1, black == 2, unchanged('CIJ'))"),
+    ('COLORS', _NODE % "Or(color[v] == 0, color[v] == 1, color[v] == 2)"),
+    ('SOURCE-discovered', "color[source] != 0"),
+    ('SOURCE-while-queued-is-the-head-at-distance-zero', "implies(color[source] == 1, And(distance[source] == 0, len(Q) >= 1, Q[0] == source))"),
+    ('DIST-discovered-nodes-carry-the-shortest-walk-length', _NODE % ("implies(And(v != source, color[v] != 0), And(distance[v] == " + (_D % 'v') + ", " + (_D % 'v') + " >= 1))")),
+    ('DIST-undiscovered-nodes-are-infinite', _NODE % "implies(color[v] == 0, distance[v] == INF)"),
+    ('QUEUE-holds-gray-nodes', "forall(lambda i: implies(And(i >= 0, i < len(Q)), And(inr(Q[i], n0), color[Q[i]] == 1)))"),
+    ('QUEUE-holds-every-gray-node', _NODE % "implies(color[v] == 1, And(qp[v] >= 0, qp[v] < len(Q), Q[qp[v]] == v))"),
+    ('QUEUE-positions-are-consistent', "forall(lambda i: implies(And(i >= 0, i < len(Q)), qp[Q[i]] == i))"),
+    ('QUEUE-sorted-by-level', "forall(lambda i, j: implies(And(i >= 0, i < j, j < len(Q)), " + (_LEV % ('Q[i]', 'Q[i]')) + " <= " + (_LEV % ('Q[j]', 'Q[j]')) + "))"),
+    ('QUEUE-spans-at-most-two-levels', "implies(len(Q) >= 1, " + (_LEV % ('Q[len(Q) - 1]', 'Q[len(Q) - 1]')) + " <= " + (_LEV % ('Q[0]', 'Q[0]')) + " + 1)"),
+    ('CLOSED-black-nodes-have-no-undiscovered-neighbour', "forall(lambda v, w: implies(And(inr(v, n0), inr(w, n0), color[v] == 2, CIJ[v, w] != 0), color[w] != 0))"),
+    ('FRONTIER-everything-up-to-the-head-level-is-discovered', "implies(len(Q) >= 1, " + (_NODE % ("implies(And(v != source, " + (_D % 'v') + " >= 1, " + (_D % 'v') + " <= " + (_LEV % ('Q[0]', 'Q[0]')) + "), color[v] != 0)")) + ")"),
+]
+CONTRACTS['breadth'] = Contract(
+    MOD, 'breadth', ['CIJ', 'source'], setup=_setup_bfs,
+    requires=[('source-is-a-node-without-self-loop', "And(inr(source, n0), CIJ[source, source] == 0)"), ('infinity-exceeds-any-hop-count', 'INF > n0')],
+    loops={'while Q': {'name': 'queue', 'inv': _BFS_STATE, 'ghosts': ['qp']},
+           'for v in ns': {'name': 'neighbours', 'ghosts': ['qp'], 'inv': _BFS_STATE[:-1] + [
+               ('HEAD-is-being-processed', "And(len(Q) >= 1, Q[0] == u, inr(u, n0), lu == (0 if u == source else sdist(CIJ, source, u)))"),
+               ('FRONTIER-everything-up-to-the-head-level-is-discovered', _NODE % ("implies(And(v != source, " + (_D % 'v') + " >= 1, " + (_D % 'v') + " <= " + (_LEV % ('u', 'u')) + "), color[v] != 0)")),
+               ('NEIGHBOURS-done-are-discovered', "forall(lambda t: implies(And(t >= 0, t < _it), color[ns[t]] != 0))")]}},
+    ghost_after={'n = len(CIJ)': "assume(lemma_walks(CIJ, n0))",
+                 'Q = [source]': "qp = lam1(lambda w: 0, n0)",
+                 'Q.append(*)': "qp = lam1(lambda w: (len(Q) - 1 if w == appended_value() else qp[w]), n0)",
+                 'Q = Q[*]': "qp = lam1(lambda w: qp[w] - 1, n0)",
+                 'color[u] = *': "assume(lemma_walks(CIJ, n0, lu)); "
+                                     "check('once-the-head-moves-to-the-next-level-that-level-is-discovered', implies(And(len(Q) >= 1, " + (_LEV % ('Q[0]', 'Q[0]')) + " == lu + 1), " + (_NODE % ("implies(And(v != source, " + (_D % 'v') + " == lu + 1), color[v] != 0)")) + "))",
+                 'while Q': "assume(lemma_reach_closed(CIJ, source, lam1(lambda v: color[v] != 0, n0), n0))"},
+    ghost_before={'ns, = np.where(*': "lu = (0 if u == source else sdist(CIJ, source, u))",
+                  'color[v] = gray': "check('head-level-is-its-distance', distance[u] == lu); "
+                                     "check('new-node-is-reached-by-a-walk-through-the-head', walk(CIJ, source, v, lu + 1)); "
+                                     "check('new-node-is-not-closer', " + (_D % 'v') + " >= lu + 1)"},
+    ensures=[('distance-is-the-shortest-path-length', _NODE % ("implies(And(v != source, " + (_D % 'v') + " >= 1), result(0)[v] == " + (_D % 'v') + ")")),
+             ('infinite-exactly-when-unreachable', _NODE % ("implies(v != source, iff(" + (_D % 'v') + " == 0, result(0)[v] == INF))")),
+             ('argument-untouched', "unchanged('CIJ')")])
+
+
+def _callee_breadth(eng, st, args, kw, node):
+    """contract of breadth (proved above): requires become obligations at the call site; the two results are fresh arrays about which
+    exactly the ensures are assumed (the second result, the BFS tree, is left unconstrained)."""
+    from engine.pyvc.core import to_z3, sdist, TupleV, A1R, Ref
+    ref = args[0] if isinstance(args[0], Ref) else eng.np.materialise(eng, st, args[0])
+    o = st.heap[ref.oid]
+    G = eng.pure(o.term)
+    n = to_z3(o.shape[0], INT)
+    s_ = to_z3(args[1], INT)
+    INF = z3.Real('INF')
+    eng.oblige(st, 'call[breadth]/requires/source-is-a-node-without-self-loop', z3.And(s_ >= 0, s_ < n, z3.Select(z3.Select(G, s_), s_) == 0))
+    eng.oblige(st, 'call[breadth]/requires/infinity-exceeds-any-hop-count', INF > z3.ToReal(n))
+    dist = fresh('bfsdist', A1R)
+    v = z3.Int('v!bf')
+    sd = sdist(G, s_, v)
+    st.pc.append(z3.ForAll([v], z3.Implies(z3.And(v >= 0, v < n, v != s_), z3.And(z3.Implies(sd >= 1, z3.Select(dist, v) == z3.ToReal(sd)), (sd == 0) == (z3.Select(dist, v) == INF))), patterns=[z3.Select(dist, v)]))
+    return TupleV((alloc(st, 1, dist, (o.shape[0],), REAL), alloc(st, 1, fresh('bfstree', A1R), (o.shape[0],), REAL)))
+
+
+def _setup_bd(eng, st):
+    n = z3.Int('n0c')
+    st.pc.append(n >= 1)
+    st.ghost['n0'] = n
+    st.env['CIJ'] = alloc(st, 2, z3.Const('C0', A2R), (n, n), REAL)
+
+
+_PAIR = "forall(lambda a, b: implies(And(inr(a, n0), inr(b, n0), a != b), %s))"
+CONTRACTS['breadthdist'] = Contract(
+    MOD, 'breadthdist', ['CIJ'], setup=_setup_bd,
+    requires=[('no-self-loops', "forall(lambda a: implies(inr(a, n0), CIJ[a, a] == 0))"), ('infinity-exceeds-any-hop-count', 'INF > n0')],
+    loops={'for i in range(n)': {'name': 'sources', 'inv': [
+        ('ROWS-done', "forall(lambda a, b: implies(And(inr(a, n0), inr(b, n0), a != b, a < _it), And(implies(sdist(CIJ, a, b) >= 1, D[a, b] == sdist(CIJ, a, b)), iff(sdist(CIJ, a, b) == 0, D[a, b] == INF))))"),
+        ('FRAME', "And(n == n0, unchanged('CIJ'))")]}},
+    ghost_after={'n = len(CIJ)': "assume(lemma_walks(CIJ, n0))"},
+    ensures=[('distance-is-the-shortest-path-length', _PAIR % "implies(sdist(CIJ, a, b) >= 1, result(1)[a, b] == sdist(CIJ, a, b))"),
+             ('infinite-exactly-when-unreachable', _PAIR % "iff(sdist(CIJ, a, b) == 0, result(1)[a, b] == INF)"),
+             ('reachability-flag-is-true-exactly-for-finite-distances', _PAIR % "iff(result(0)[a, b], result(1)[a, b] != INF)"),
+             ('argument-untouched', "unchanged('CIJ')")])
+CONTRACTS['breadthdist'].callees = {'breadth': _callee_breadth}
